@@ -13,6 +13,9 @@
         run                                    run the event loop until nothing is ready
         nri:<fd> nrw:<k> [{ ops }] nrc:<j> nrx nrp          buffered reader
         nwi:<fd> nww:<n> nwr:<n> nwc:<j>                     buffered writer (top level only)
+        nwo:<pos>                                            the writer's next bytes are pattern(200, pos..)
+        (mwi mww mwr mwc mwo: a SECOND writer, C driver only; areas/net.py projects such a log on
+         each writer and asks this runner about each writer alone)
      conn <0|1> <outcomes|-> <ops|->            network_connect[_timeo] over an address list
         outcomes: S socket fails  N fcntl fails  F connect ECONNREFUSED  H connect EHOSTUNREACH
                   A pending, later SO_ERROR ECONNREFUSED   B pending (EINTR), later ETIMEDOUT
@@ -74,6 +77,11 @@ let rec parse_ops top toks : op list * string list =
   match toks with
   | [] -> if top then ([], []) else raise Bad
   | "}" :: rest -> if top then raise Bad else ([], rest)
+  | t :: rest when top && String.length t > 4 && String.sub t 0 4 = "nwo:" ->
+    (* nwo:<pos>: the application's next bytes are pattern(200, pos ..) (no operation of its own) *)
+    let p = ios (String.sub t 4 (String.length t - 4)) in
+    if p < 0 || p > 2000000 then raise Bad;
+    app_pos := p; parse_ops top rest
   | t :: rest ->
     let block rest = match rest with
       | "{" :: r -> parse_ops false r
